@@ -66,6 +66,13 @@ def run_len(ctx, pt):
             if L > 0:
                 got = ctx.attempt(lambda: mk(b, r, d, native)(M, bitlen=L))
                 ctx.eq('%s/rate%s/%s' % (K, '<8' if r < 8 else '', lclass(L, r)), got, ('ok', exp))
+                if kind == 0 and L % 3 == 0:
+                    # second call on an object that already answered a call with another bit length and a per-call rate
+                    def second():
+                        o = mk(b, r, d, native)
+                        o(b'\xa5\x5a\xc3', bitlen=21, r=max(1, r // 2))
+                        return o(M, bitlen=L)
+                    ctx.eq('%s/reused-object' % K, ctx.attempt(second), ('ok', exp))
 
 
 def pts_out(tier):
@@ -168,10 +175,16 @@ class DuplexSys(HSystem):
 
     def events(self, o):
         r = self.r
-        return [(bl, ol) for bl in sorted({0, 1, r - 2, min(8, r - 2)}) for ol in (1, r)]
+        return [(bl, ol) for bl in sorted({0, 1, r - 2, min(8, r - 2)}) for ol in (1, r)] + [('sponge', 5), ('sponge', r + 3)]
 
     def apply(self, o, ev):
         bl, ol = ev
+        if bl == 'sponge':
+            # a plain sponge call (NIST bit order, explicit bit length) between duplex calls: it must neither disturb
+            # the duplex state nor be disturbed by it
+            m = expander((ol + 7) // 8, 9)
+            o['exp'] = RK.keccak(self.b, self.r, m, ol, self.r, nist=True)
+            return o['o'](m, bitlen=ol)
         m = expander((bl + 7) // 8, 5 + bl % 3)
         o['exp'] = o['ref'](RK.bits_native(m, bl), ol)
         if bl == 0:
@@ -179,8 +192,8 @@ class DuplexSys(HSystem):
         return o['o'].duplex(m, bitlen=bl, outlen=ol)
 
     def judge(self, ctx, hist, ev, res, o):
-        ctx.eq('C04/duplex', res, ('ok', o['exp']))
-        ctx.eq('C04/duplex/state', self.canon(o), tuple(o['ref'].S))
+        ctx.eq('C04/duplex' if ev[0] != 'sponge' else 'C04/keccak/sponge-call-between-duplex-calls', res, ('ok', o['exp']))
+        ctx.eq('C04/duplex/state', self.canon(o) or (0,) * 25, tuple(o['ref'].S))
 
 
 def systems(tier):
@@ -206,7 +219,7 @@ def subchecks():
             bound='L in {0,1,5,8,13,r-1,r,r+3}: exact container, +2 trailing bytes, bitlen=0 with empty and non-empty container; both bit orders'),
         Sub('fips202', pts_fips, run_fips, engine='P',
             bound='SHA3-224/256/384/512 on every byte length 0..2 rate-blocks+1 (quick: every 3rd + the rate boundaries), SHAKE128/256 at 256 bits on every length (quick: every 5th) and 4 output lengths on 6 lengths vs hashlib; module singletons keccak_224..512 on 10 lengths'),
-        hsub('duplex', systems, 3, bound='Keccak(b,r) for (25,9),(200,40),(1600,1027),(1600,1088) (+3 in thorough): events duplex(m, bitlen in {0,1,8,r-2}, outlen in {1,r}); all sequences to depth 3 vs a reference duplex object; state = 25 lanes'),
+        hsub('duplex', systems, 3, bound='Keccak(b,r) for (25,9),(200,40),(1600,1027),(1600,1088) (+3 in thorough): events duplex(m, bitlen in {0,1,8,r-2}, outlen in {1,r}) and two plain sponge calls with a bit length (NIST order); all sequences to depth 3 vs a reference duplex object; state = 25 lanes'),
     ]
 
 
